@@ -5,16 +5,385 @@ import (
 	"strings"
 )
 
-func textExt2(sb *strings.Builder, n Node) bool { return false }
+// Function-related nodes.
+type (
+	// Assign is $name := value (binds in the enclosing block's frame).
+	Assign struct {
+		Name string
+		Val  Node
+	}
+	// Lambda is function($p1, ...){body}; Sig is the raw signature text ("" if untyped).
+	Lambda struct {
+		Params []string
+		Body   Node
+		Sig    string
+	}
+	// Partial is f(a, ?, b): nil entries of Args are placeholders.
+	Partial struct {
+		Fn   Node
+		Args []Node
+	}
+	// Apply is lhs ~> rhs.
+	Apply struct{ L, R Node }
+	// Transform is |pattern|update[,delete]|.
+	Transform struct{ Pattern, Update, Delete Node }
+	// Sort is x^(terms).
+	Sort struct {
+		X     Node
+		Terms []SortTerm
+	}
+	// SortTerm is one order-by key; Dir is "", "<" or ">".
+	SortTerm struct {
+		Dir string
+		Key Node
+	}
+	// Group is x{k: v, ...}.
+	Group struct {
+		X     Node
+		Pairs [][2]Node
+	}
+)
 
-func needsParenExt2(n Node) bool { return false }
+func textExt2(sb *strings.Builder, n Node) bool {
+	switch x := n.(type) {
+	case *Assign:
+		sb.WriteString("$" + x.Name + " := ")
+		text(sb, x.Val)
+	case *Lambda:
+		sb.WriteString("function(")
+		for i, p := range x.Params {
+			if i > 0 {
+				sb.WriteString(", ")
+			}
+			sb.WriteString("$" + p)
+		}
+		sb.WriteString(")")
+		if x.Sig != "" {
+			sb.WriteString("<" + x.Sig + ">")
+		}
+		sb.WriteString("{")
+		text(sb, x.Body)
+		sb.WriteString("}")
+	case *Partial:
+		text(sb, x.Fn)
+		sb.WriteString("(")
+		for i, a := range x.Args {
+			if i > 0 {
+				sb.WriteString(", ")
+			}
+			if a == nil {
+				sb.WriteString("?")
+			} else {
+				text(sb, a)
+			}
+		}
+		sb.WriteString(")")
+	case *Apply:
+		textOperand(sb, x.L)
+		sb.WriteString(" ~> ")
+		textOperand(sb, x.R)
+	case *Transform:
+		sb.WriteString("|")
+		text(sb, x.Pattern)
+		sb.WriteString("|")
+		text(sb, x.Update)
+		if x.Delete != nil {
+			sb.WriteString(", ")
+			text(sb, x.Delete)
+		}
+		sb.WriteString("|")
+	case *Sort:
+		textOperand(sb, x.X)
+		sb.WriteString("^(")
+		for i, t := range x.Terms {
+			if i > 0 {
+				sb.WriteString(", ")
+			}
+			sb.WriteString(t.Dir)
+			text(sb, t.Key)
+		}
+		sb.WriteString(")")
+	case *Group:
+		textOperand(sb, x.X)
+		sb.WriteString("{")
+		for i, p := range x.Pairs {
+			if i > 0 {
+				sb.WriteString(", ")
+			}
+			text(sb, p[0])
+			sb.WriteString(": ")
+			text(sb, p[1])
+		}
+		sb.WriteString("}")
+	default:
+		return false
+	}
+	return true
+}
+
+func needsParenExt2(n Node) bool {
+	switch n.(type) {
+	case *Assign, *Apply, *Lambda:
+		return true
+	}
+	return false
+}
 
 func evalExt2(n Node, ctx interface{}, env *Env) (interface{}, error) {
+	switch x := n.(type) {
+	case *Assign:
+		v, err := Eval(x.Val, ctx, env)
+		if err != nil {
+			return nil, err
+		}
+		env.Bind(x.Name, v)
+		return v, nil
+	case *Lambda:
+		return makeLambda(x, ctx, env)
+	case *Partial:
+		return evalPartial(x, ctx, env)
+	case *Apply:
+		return evalApply(x, ctx, env)
+	case *Transform:
+		return makeTransform(x, env), nil
+	case *Sort:
+		return evalSort(x, ctx, env)
+	case *Group:
+		v, err := Eval(x.X, ctx, env)
+		if err != nil {
+			return nil, err
+		}
+		var items []interface{}
+		switch a := v.(type) {
+		case []interface{}:
+			items = a
+		case Undef:
+			return nil, &Unspecified{"grouping of no value"}
+		default:
+			items = []interface{}{v}
+		}
+		return evalGroup(&Obj{Pairs: x.Pairs}, items, v, env)
+	}
 	panic(fmt.Sprintf("ref: cannot evaluate %T", n))
 }
 
-// evalObjCons is the plain object constructor {k: v, ...} on one context item
-// (grouping over sequences lives in group.go).
+// evalObjCons is the plain object constructor {k: v, ...} on one context item:
+// the context counts as a list of items (an array context contributes its members).
 func evalObjCons(o *Obj, ctx interface{}, env *Env) (interface{}, error) {
+	if a, ok := ctx.([]interface{}); ok {
+		return evalGroup(o, a, ctx, env)
+	}
 	return evalGroup(o, []interface{}{ctx}, ctx, env)
+}
+
+func makeLambda(l *Lambda, ctx interface{}, env *Env) (interface{}, error) {
+	var sig []sigParam
+	if l.Sig != "" {
+		var err error
+		sig, err = parseSig(l.Sig)
+		if err != nil {
+			return nil, &Unspecified{"signature outside the reference grammar: " + l.Sig}
+		}
+	}
+	f := &Func{Name: "lambda", Arity: len(l.Params)}
+	f.Call = func(args []interface{}) (interface{}, error) {
+		if l.Sig != "" {
+			var err error
+			args, err = fitSig(sig, args, ctx)
+			if err != nil {
+				return nil, err
+			}
+		}
+		frame := env.child()
+		for i, p := range l.Params {
+			if i < len(args) {
+				frame.Bind(p, args[i])
+			} else {
+				frame.Bind(p, U)
+			}
+		}
+		return Eval(l.Body, ctx, frame)
+	}
+	return f, nil
+}
+
+func evalPartial(p *Partial, ctx interface{}, env *Env) (interface{}, error) {
+	fv, err := Eval(p.Fn, ctx, env)
+	if err != nil {
+		return nil, err
+	}
+	f, ok := fv.(*Func)
+	if !ok {
+		return nil, E("eval:NonCallablePartial")
+	}
+	holes := 0
+	for _, a := range p.Args {
+		if a == nil {
+			holes++
+		}
+	}
+	pf := &Func{Name: f.Name + "_partial", Arity: holes}
+	pf.Call = func(args []interface{}) (interface{}, error) {
+		full := make([]interface{}, len(p.Args))
+		k := 0
+		for i, a := range p.Args {
+			if a == nil {
+				if k < len(args) {
+					full[i] = args[k]
+				} else {
+					full[i] = U
+				}
+				k++
+				continue
+			}
+			v, err := Eval(a, ctx, env)
+			if err != nil {
+				return nil, err
+			}
+			full[i] = v
+		}
+		if f.CallCtx != nil {
+			return f.CallCtx(full, ctx)
+		}
+		return f.Call(full)
+	}
+	return pf, nil
+}
+
+func evalApply(a *Apply, ctx interface{}, env *Env) (interface{}, error) {
+	if c, ok := a.R.(*Call); ok {
+		// v ~> f(x) is f(v, x)
+		return evalCall(&Call{Fn: c.Fn, Args: append([]Node{a.L}, c.Args...)}, ctx, env)
+	}
+	l, err := Eval(a.L, ctx, env)
+	if err != nil {
+		return nil, err
+	}
+	r, err := Eval(a.R, ctx, env)
+	if err != nil {
+		return nil, err
+	}
+	g, ok := r.(*Func)
+	if !ok {
+		return nil, E("eval:NonCallableApply")
+	}
+	if f, isFn := l.(*Func); isFn {
+		// f ~> g applies f then g
+		return &Func{Name: "chain", Arity: 1, Call: func(args []interface{}) (interface{}, error) {
+			var v interface{} = U
+			if len(args) > 0 {
+				v = args[0]
+			}
+			v, err := callFn(f, []interface{}{v}, ctx)
+			if err != nil {
+				return nil, err
+			}
+			return callFn(g, []interface{}{v}, ctx)
+		}}, nil
+	}
+	return callFn(g, []interface{}{l}, ctx)
+}
+
+func callFn(f *Func, args []interface{}, ctx interface{}) (interface{}, error) {
+	if f.CallCtx != nil {
+		return f.CallCtx(args, ctx)
+	}
+	return f.Call(args)
+}
+
+// CloneValue deep-copies maps and slices.
+func CloneValue(v interface{}) interface{} {
+	switch x := v.(type) {
+	case []interface{}:
+		out := make([]interface{}, len(x))
+		for i, e := range x {
+			out[i] = CloneValue(e)
+		}
+		return out
+	case map[string]interface{}:
+		out := make(map[string]interface{}, len(x))
+		for k, e := range x {
+			out[k] = CloneValue(e)
+		}
+		return out
+	}
+	return v
+}
+
+// makeTransform: the transform returns a deep copy of its argument in which
+// exactly the objects selected by the pattern (evaluated on the copy) have the
+// update object's members set and the deleted names removed.
+func makeTransform(t *Transform, env *Env) *Func {
+	f := &Func{Name: "transform", Arity: 1}
+	f.Call = func(args []interface{}) (interface{}, error) {
+		if len(args) != 1 {
+			return nil, E("argcount")
+		}
+		arg := args[0]
+		if IsUndef(arg) {
+			return U, nil
+		}
+		switch arg.(type) {
+		case map[string]interface{}, []interface{}:
+		default:
+			return nil, E("argtype")
+		}
+		cp := CloneValue(arg)
+		sel, err := Eval(t.Pattern, cp, env)
+		if err != nil {
+			return nil, err
+		}
+		var items []interface{}
+		switch s := sel.(type) {
+		case Undef:
+		case []interface{}:
+			items = s
+		default:
+			items = []interface{}{sel}
+		}
+		for _, it := range items {
+			obj, ok := it.(map[string]interface{})
+			if !ok {
+				continue
+			}
+			upd, err := Eval(t.Update, obj, env)
+			if err != nil {
+				return nil, err
+			}
+			if !IsUndef(upd) {
+				u, ok := upd.(map[string]interface{})
+				if !ok {
+					return nil, E("eval:IllegalUpdate")
+				}
+				for k, v := range u {
+					obj[k] = v
+				}
+			}
+			if t.Delete != nil {
+				del, err := Eval(t.Delete, obj, env)
+				if err != nil {
+					return nil, err
+				}
+				if IsUndef(del) {
+					continue
+				}
+				var names []interface{}
+				if a, ok := del.([]interface{}); ok {
+					names = a
+				} else {
+					names = []interface{}{del}
+				}
+				for _, n := range names {
+					if _, ok := n.(string); !ok {
+						return nil, E("eval:IllegalDelete")
+					}
+				}
+				for _, n := range names {
+					delete(obj, n.(string))
+				}
+			}
+		}
+		return cp, nil
+	}
+	return f
 }
